@@ -10,10 +10,53 @@ from .common import c13sim
 
 PROPERTY = "C13"
 LEAN_MODULES = ["AioProps.C13"]
-THEOREMS = []
-RULE = ""
-TRUSTED_BASE = []
-ASSUMPTIONS = []
+THEOREMS = [
+    "Aio.C13.at_most_one_close_frame",
+    "Aio.C13.close_frame_implies_closed",
+    "Aio.C13.no_data_after_close_frame_fixed",
+    "Aio.C13.no_data_after_close_frame_partial",
+    "Aio.C13.writer_closing_after_close_frame_fixed",
+    "Aio.C13.writer_closing_after_close_frame_partial",
+    "Aio.C13.f17_data_after_close",
+    "Aio.C13.f17_repaired",
+    "Aio.C13.receive_on_closed_session_returns",
+    "Aio.C13.close_cancelled_in_close_wait_leaves_transport_open",
+    "Aio.C13.client_close_timeout_restarts_per_message",
+    "Aio.C13.srv_close_abnormal_exit",
+    "Aio.C13.srv_close_reports_peer_code",
+    "Aio.C13.cli_close_abnormal_exit",
+]
+RULE = ("One scenario = a session configuration (server|client, autoclose, autoping, heartbeat in {none,2,8,11 s}, "
+        "receive timeout in {none,0.75,3 s}, close timeout in {0.5,1.5,10 s}, writer limit in {1,20,65536} / client default) "
+        "plus a label sequence over: call <task 0..2> receive|close(code)|send(n)|ping, cancel <task>, peer text|ping|pong|"
+        "close(code, incl. empty payload)|protocol-violating frame, drop (clean / with error), pausew/resumew, adv <ms>, "
+        "tick (= ONE ready callback, or the clock jumps to the next timer). (a) random sequences of 3-14 events with 0-3 "
+        "ticks in between; (b) every permutation of twelve 5-event sets x 4 configurations x {0,1,8} ticks after each event "
+        "(thorough: all 120 permutations, quick: 4 sampled); (c) the minimal sequence of each known finding. Every scenario is then "
+        "driven to quiescence, the connection is dropped, and driven to quiescence again. After every label the projection "
+        "of the real objects (session flags, close code, exception kind, writer._closing, wire frames, queue, timers, ready "
+        "count, clock, task outcomes) is compared with the Lean model's; the direct oracle judges the wire, the close() "
+        "duration, parked tasks at quiescence, transport state and the close code on the real objects alone. A case is "
+        "non-trivial when the projection changes at least twice; distinct by (configuration, labels).")
+TRUSTED_BASE = [
+    "the hand-written model lean/AioModel/C13.lean of web_ws.py / client_ws.py / _websocket/writer.py / WebSocketDataQueue / "
+    "BaseProtocol drain / connection_lost paths (tied to the code by trace conformance only)",
+    "asyncio semantics as modelled: FIFO call_soon, Task.cancel (_fut_waiter.cancel() else _must_cancel), cancelling()/uncancel(), "
+    "asyncio.timeout enter/exit/_on_timeout, eager task start; exercised against CPython 3.12 by the same conformance run",
+    "harness/common/c13sim.py: in-memory transport (close()/abort()/drop schedule connection_lost via call_soon; writes after "
+    "closing are discarded; data is not delivered once closing) and the one-callback-at-a-time stepping of a real SelectorEventLoop subclass",
+    "the frame parser is not part of this model (property C12): peer frames enter as parsed messages; 'bad' stands for any frame "
+    "the real parser rejects with WebSocketError(1002)",
+]
+ASSUMPTIONS = [
+    "no compression (the uncompressed send_frame path); payloads far below the queue's 2*DEFAULT_CHUNK_SIZE read-pause limit",
+    "scenarios in which two armed timers share a deadline are skipped (heap order of equal deadlines is not modelled)",
+    "client read_timeout (sock_read) is not configured; timeouts > 0; application calls limited to receive/close/send_bytes/ping from <= 3 tasks",
+    "the time bound on close() is judged only on runs without write back-pressure (back-pressure is not one of the property's actors; "
+    "with a write-paused transport close() waits in the drain without any timeout)",
+    "theorems about data-after-close hold for the unchanged writer only without write-pause (no_data_after_close_frame_partial); "
+    "with write-pause they hold for the repaired writer (cfg.fixed) and F17 is the kernel-checked counterexample",
+]
 
 
 def generate(repo):
